@@ -9,7 +9,7 @@
    Anchors (the Go code computes the same notions in float64; this file is the exact reference):
    geom/xy.go:Cross, geom/util.go:orientation, geom/line.go:intersectLine / hasCrossing /
    relativePointRingLocation (crossing parity). *)
-From Coq Require Import QArith Qreduction List Bool ZArith Lia Lqa.
+From Coq Require Import QArith Qreduction List Bool ZArith Lia Lqa Setoid Morphisms.
 Import ListNotations.
 Open Scope Q_scope.
 
@@ -29,6 +29,8 @@ Definition cross (o a b : pt) : Q :=
 Definition qsgn (q : Q) : comparison := q ?= 0.
 (* Gt: counter-clockwise (left turn); Eq: collinear; Lt: clockwise *)
 Definition orient (o a b : pt) : comparison := qsgn (cross o a b).
+
+Definition qltb (a b : Q) : bool := negb (Qle_bool b a).
 
 Definition qbetween (a b x : Q) : bool :=
   (Qle_bool a x && Qle_bool x b) || (Qle_bool b x && Qle_bool x a).
@@ -99,8 +101,7 @@ Definition edge_cross (a b p : pt) : bool :=
   if Bool.eqb ya yb then false
   else
     (* lo is the lower end *)
-    if ya then Qlt_le_dec 0 (cross a b p) && true
-    else Qlt_le_dec 0 (cross b a p) && true.
+    if ya then qltb 0 (cross a b p) else qltb 0 (cross b a p).
 
 Fixpoint ring_edges (vs : list pt) : list seg :=
   match vs with
@@ -108,9 +109,428 @@ Fixpoint ring_edges (vs : list pt) : list seg :=
   | _ => []
   end.
 
-(* parity of the number of crossings; the vertex list is closed (first = last) *)
-Definition pt_in_ring (vs : list pt) (p : pt) : bool :=
-  fold_left (fun acc e => xorb acc (edge_cross (fst e) (snd e) p)) (ring_edges vs) false.
+(* parity of the number of crossings over a list of edges *)
+Definition edges_parity (es : list seg) (p : pt) : bool :=
+  fold_left (fun acc e => xorb acc (edge_cross (fst e) (snd e) p)) es false.
+Definition on_edges (es : list seg) (p : pt) : bool := existsb (fun e => on_seg e p) es.
 
-Definition on_ring (vs : list pt) (p : pt) : bool :=
-  existsb (fun e => on_seg e p) (ring_edges vs).
+(* the vertex list is closed (first = last); meaningful (inside/outside) when p is not on the ring *)
+Definition pt_in_ring (vs : list pt) (p : pt) : bool := edges_parity (ring_edges vs) p.
+Definition on_ring (vs : list pt) (p : pt) : bool := on_edges (ring_edges vs) p.
+
+(* ================================================================ lemmas ================= *)
+
+
+Lemma cross_antisym o a b : cross o a b == - cross o b a.
+Proof. unfold cross. ring. Qed.
+Lemma cross_cyclic o a b : cross o a b == cross a b o.
+Proof. unfold cross. ring. Qed.
+Lemma cross_translate o a b v : cross (pt_add o v) (pt_add a v) (pt_add b v) == cross o a b.
+Proof. unfold cross, pt_add; simpl. ring. Qed.
+
+Lemma qsgn_opp q : qsgn (- q) = CompOpp (qsgn q).
+Proof.
+  unfold qsgn. rewrite <- Qcompare_antisym.
+  destruct q as [n d]. unfold Qcompare, Qopp; simpl. destruct n; reflexivity.
+Qed.
+Global Instance qsgn_proper : Proper (Qeq ==> eq) qsgn.
+Proof. intros x y H. unfold qsgn. rewrite H. reflexivity. Qed.
+
+Lemma orient_antisym o a b : orient o b a = CompOpp (orient o a b).
+Proof. unfold orient. rewrite (cross_antisym o b a). apply qsgn_opp. Qed.
+Lemma orient_cyclic o a b : orient o a b = orient a b o.
+Proof. unfold orient. rewrite (cross_cyclic o a b). reflexivity. Qed.
+Lemma orient_translate o a b v : orient (pt_add o v) (pt_add a v) (pt_add b v) = orient o a b.
+Proof. unfold orient. rewrite cross_translate. reflexivity. Qed.
+Lemma orient_sign o a b :
+  (orient o a b = Gt <-> 0 < cross o a b) /\ (orient o a b = Eq <-> cross o a b == 0) /\
+  (orient o a b = Lt <-> cross o a b < 0).
+Proof.
+  unfold orient, qsgn. repeat split; intros H.
+  - rewrite <- Qgt_alt in H. exact H.
+  - rewrite <- Qgt_alt. exact H.
+  - apply Qeq_alt; exact H.
+  - apply Qeq_alt; exact H.
+  - apply Qlt_alt; exact H.
+  - apply Qlt_alt; exact H.
+Qed.
+
+
+Global Instance pt_eq_equiv : Equivalence pt_eq.
+Proof.
+  split.
+  - intros p; split; reflexivity.
+  - intros p q [H1 H2]; split; symmetry; assumption.
+  - intros p q r [H1 H2] [H3 H4]; split; etransitivity; eassumption.
+Qed.
+Lemma pt_eqb_iff p q : pt_eqb p q = true <-> pt_eq p q.
+Proof. unfold pt_eqb, pt_eq. rewrite andb_true_iff, !Qeq_bool_iff. tauto. Qed.
+Lemma pt_red_eq p : pt_eq (pt_red p) p.
+Proof. split; simpl; apply Qred_correct. Qed.
+
+Global Instance cross_proper : Proper (pt_eq ==> pt_eq ==> pt_eq ==> Qeq) cross.
+Proof.
+  intros o o' [Ho1 Ho2] a a' [Ha1 Ha2] b b' [Hb1 Hb2]. unfold cross.
+  rewrite Ho1, Ho2, Ha1, Ha2, Hb1, Hb2. reflexivity.
+Qed.
+
+Lemma Qle_bool_proper_l a a' b : a == a' -> Qle_bool a b = Qle_bool a' b.
+Proof.
+  intros H. apply eq_true_iff_eq. rewrite !Qle_bool_iff. rewrite H. tauto.
+Qed.
+Global Instance Qle_bool_proper : Proper (Qeq ==> Qeq ==> eq) Qle_bool.
+Proof.
+  intros a a' Ha b b' Hb. apply eq_true_iff_eq. rewrite !Qle_bool_iff. rewrite Ha, Hb. tauto.
+Qed.
+Global Instance Qeq_bool_proper : Proper (Qeq ==> Qeq ==> eq) Qeq_bool.
+Proof.
+  intros a a' Ha b b' Hb. apply eq_true_iff_eq. rewrite !Qeq_bool_iff. rewrite Ha, Hb. tauto.
+Qed.
+Global Instance qbetween_proper : Proper (Qeq ==> Qeq ==> Qeq ==> eq) qbetween.
+Proof. intros a a' Ha b b' Hb x x' Hx. unfold qbetween. rewrite Ha, Hb, Hx. reflexivity. Qed.
+
+Lemma qbetween_iff a b x : qbetween a b x = true <-> (a <= x <= b) \/ (b <= x <= a).
+Proof. unfold qbetween. rewrite orb_true_iff, !andb_true_iff, !Qle_bool_iff. tauto. Qed.
+
+Lemma on_seg_proper a b p a' b' p' :
+  pt_eq a a' -> pt_eq b b' -> pt_eq p p' -> on_seg (a, b) p = on_seg (a', b') p'.
+Proof.
+  intros Ha Hb Hp. unfold on_seg.
+  rewrite (cross_proper _ _ Ha _ _ Hb _ _ Hp).
+  destruct Ha as [Ha1 Ha2], Hb as [Hb1 Hb2], Hp as [Hp1 Hp2].
+  rewrite Ha1, Ha2, Hb1, Hb2, Hp1, Hp2. reflexivity.
+Qed.
+
+(* the closed segment as a parametrised set *)
+Definition seg_param (a b p : pt) (t : Q) : Prop :=
+  0 <= t <= 1 /\ fst p == fst a + t * (fst b - fst a) /\ snd p == snd a + t * (snd b - snd a).
+
+Lemma on_seg_iff a b p : on_seg (a, b) p = true <-> exists t, seg_param a b p t.
+Proof.
+  unfold on_seg, seg_param, cross. destruct a as [ax ay], b as [bx by_], p as [px py]; simpl.
+  rewrite !andb_true_iff, !qbetween_iff, Qeq_bool_iff.
+  split.
+  - intros [[Hx Hy] Hc].
+    destruct (Qeq_dec ax bx) as [Ex | Nx].
+    + destruct (Qeq_dec ay by_) as [Ey | Ny].
+      * exists 0. split; [lra|]. split; nra.
+      * exists ((py - ay) / (by_ - ay)).
+        assert (Hd : ~ by_ - ay == 0) by lra.
+        assert (Ht : (py - ay) / (by_ - ay) * (by_ - ay) == py - ay) by (field; exact Hd).
+        set (t := (py - ay) / (by_ - ay)) in *.
+        split; [|split].
+        -- destruct (Qlt_le_dec ay by_); split; nra.
+        -- nra.
+        -- lra.
+    + exists ((px - ax) / (bx - ax)).
+      assert (Hd : ~ bx - ax == 0) by lra.
+      assert (Ht : (px - ax) / (bx - ax) * (bx - ax) == px - ax) by (field; exact Hd).
+      set (t := (px - ax) / (bx - ax)) in *.
+      split; [|split].
+      * destruct (Qlt_le_dec ax bx); split; nra.
+      * lra.
+      * assert (H2 : (py - ay) * (bx - ax) == t * (by_ - ay) * (bx - ax)) by nra.
+        assert (H3 : (py - ay - t * (by_ - ay)) * (bx - ax) == 0) by lra.
+        apply Qmult_integral in H3. destruct H3; [lra | contradiction].
+  - intros [t [[Ht0 Ht1] [Hx Hy]]].
+    split; [split|].
+    + destruct (Qlt_le_dec ax bx); [left | right]; split; nra.
+    + destruct (Qlt_le_dec ay by_); [left | right]; split; nra.
+    + rewrite Hx, Hy. ring.
+Qed.
+
+
+Definition pt_le (p q : pt) : Prop := fst p < fst q \/ (fst p == fst q /\ snd p <= snd q).
+Lemma pt_leb_iff p q : pt_leb p q = true <-> pt_le p q.
+Proof.
+  unfold pt_leb, pt_le. destruct (fst p ?= fst q) eqn:E.
+  - apply Qeq_alt in E. rewrite Qle_bool_iff. split; [tauto|]. intros [H|[_ H]]; [lra|exact H].
+  - apply Qlt_alt in E. split; [tauto | reflexivity].
+  - apply Qgt_alt in E. split; [discriminate|]. intros [H|[H _]]; lra.
+Qed.
+Lemma pt_le_total p q : pt_le p q \/ pt_le q p.
+Proof.
+  unfold pt_le. destruct (Q_dec (fst p) (fst q)) as [[H|H]|H]; [tauto | tauto |].
+  destruct (Qlt_le_dec (snd p) (snd q)).
+  - left. right. split; [assumption | lra].
+  - right. right. split; [symmetry; assumption | assumption].
+Qed.
+Lemma pt_le_trans p q r : pt_le p q -> pt_le q r -> pt_le p r.
+Proof. unfold pt_le. intros [H1|[H1 H1']] [H2|[H2 H2']]; [left; lra | left; lra | left; lra | right; split; lra]. Qed.
+Lemma pt_le_refl p q : pt_eq p q -> pt_le p q.
+Proof. intros [H1 H2]. right. split; lra. Qed.
+Lemma pt_le_antisym p q : pt_le p q -> pt_le q p -> pt_eq p q.
+Proof. unfold pt_le, pt_eq. intros [H1|[H1 H1']] [H2|[H2 H2']]; first [lra | split; lra]. Qed.
+Lemma pt_leb_false p q : pt_leb p q = false -> pt_le q p.
+Proof.
+  intros H. destruct (pt_le_total p q) as [H1|H1]; [|exact H1].
+  apply pt_leb_iff in H1. congruence.
+Qed.
+
+Lemma pt_min_cases p q : (pt_min p q = p /\ pt_le p q) \/ (pt_min p q = q /\ pt_le q p).
+Proof. unfold pt_min. destruct (pt_leb p q) eqn:E; [left | right]; split; auto. apply pt_leb_iff; auto. apply pt_leb_false; auto. Qed.
+Lemma pt_max_cases p q : (pt_max p q = q /\ pt_le p q) \/ (pt_max p q = p /\ pt_le q p).
+Proof. unfold pt_max. destruct (pt_leb p q) eqn:E; [left | right]; split; auto. apply pt_leb_iff; auto. apply pt_leb_false; auto. Qed.
+Lemma pt_min_le_l p q : pt_le (pt_min p q) p.
+Proof. destruct (pt_min_cases p q) as [[-> H]|[-> H]]; [apply pt_le_refl; reflexivity | exact H]. Qed.
+Lemma pt_min_le_r p q : pt_le (pt_min p q) q.
+Proof. destruct (pt_min_cases p q) as [[-> H]|[-> H]]; [exact H | apply pt_le_refl; reflexivity]. Qed.
+Lemma pt_max_ge_l p q : pt_le p (pt_max p q).
+Proof. destruct (pt_max_cases p q) as [[-> H]|[-> H]]; [exact H | apply pt_le_refl; reflexivity]. Qed.
+Lemma pt_max_ge_r p q : pt_le q (pt_max p q).
+Proof. destruct (pt_max_cases p q) as [[-> H]|[-> H]]; [apply pt_le_refl; reflexivity | exact H]. Qed.
+Lemma pt_min_glb p q r : pt_le r p -> pt_le r q -> pt_le r (pt_min p q).
+Proof. intros. destruct (pt_min_cases p q) as [[-> _]|[-> _]]; assumption. Qed.
+Lemma pt_max_lub p q r : pt_le p r -> pt_le q r -> pt_le (pt_max p q) r.
+Proof. intros. destruct (pt_max_cases p q) as [[-> _]|[-> _]]; assumption. Qed.
+
+(* a point of the closed segment lies between its ends in the lexicographic order *)
+Lemma on_seg_lex a b p : on_seg (a, b) p = true -> pt_le (pt_min a b) p /\ pt_le p (pt_max a b).
+Proof.
+  intros H. apply on_seg_iff in H. destruct H as [t [[Ht0 Ht1] [Hx Hy]]].
+  assert (Hab : forall a b t, 0 <= t <= 1 -> pt_le a b ->
+            forall p, fst p == fst a + t * (fst b - fst a) -> snd p == snd a + t * (snd b - snd a) ->
+            pt_le a p /\ pt_le p b).
+  { clear. intros a b t [Ht0 Ht1] Hab p Hx Hy. unfold pt_le in *.
+    destruct Hab as [Hlt | [He Hle]].
+    - destruct (Qeq_dec t 0) as [E0|N0].
+      + split; [right; split; nra | left; nra].
+      + destruct (Qeq_dec t 1) as [E1|N1].
+        * split; [left; nra | right; split; nra].
+        * split; left; nra.
+    - split; right; split; nra. }
+  destruct (pt_le_total a b) as [L|L].
+  - destruct (pt_min_cases a b) as [[-> _]|[-> L2]]; destruct (pt_max_cases a b) as [[-> _]|[-> L3]];
+      try (apply (Hab a b t); auto; fail).
+    + pose proof (pt_le_antisym _ _ L L3) as E. destruct (Hab a b t (conj Ht0 Ht1) L p Hx Hy) as [H1 H2].
+      split; auto. eapply pt_le_trans; [exact H2|]. apply pt_le_refl. symmetry; exact E.
+    + pose proof (pt_le_antisym _ _ L L2) as E. destruct (Hab a b t (conj Ht0 Ht1) L p Hx Hy) as [H1 H2].
+      split; auto. eapply pt_le_trans; [|exact H1]. apply pt_le_refl. symmetry; exact E.
+    + pose proof (pt_le_antisym _ _ L L2) as E. destruct (Hab a b t (conj Ht0 Ht1) L p Hx Hy) as [H1 H2].
+      split.
+      * eapply pt_le_trans; [|exact H1]. apply pt_le_refl. symmetry; exact E.
+      * eapply pt_le_trans; [exact H2|]. apply pt_le_refl. symmetry; exact E.
+  - assert (Hx' : fst p == fst b + (1 - t) * (fst a - fst b)) by lra.
+    assert (Hy' : snd p == snd b + (1 - t) * (snd a - snd b)) by lra.
+    assert (Ht' : 0 <= 1 - t <= 1) by lra.
+    destruct (Hab b a (1 - t) Ht' L p Hx' Hy') as [H1 H2].
+    split.
+    + eapply pt_le_trans; [apply pt_min_le_r | exact H1].
+    + eapply pt_le_trans; [exact H2 | apply pt_max_ge_l].
+Qed.
+
+
+Lemma pt_eqb_false_iff p q : pt_eqb p q = false <-> ~ pt_eq p q.
+Proof. rewrite <- pt_eqb_iff. destruct (pt_eqb p q); split; congruence. Qed.
+
+(* collinear with a,b and lexicographically between them -> on the closed segment *)
+Lemma collinear_between_on_seg a b p :
+  cross a b p == 0 -> pt_le (pt_min a b) p -> pt_le p (pt_max a b) -> on_seg (a, b) p = true.
+Proof.
+  intros Hc H1 H2.
+  assert (Hord : forall a b p, cross a b p == 0 -> pt_le a p -> pt_le p b -> on_seg (a, b) p = true).
+  { clear. intros [ax ay] [bx by_] [px py]. unfold cross, pt_le, on_seg; simpl. intros Hc H1 H2.
+    rewrite !andb_true_iff, !qbetween_iff, Qeq_bool_iff. split; [split|].
+    - left. destruct H1 as [H1|[H1 _]], H2 as [H2|[H2 _]]; lra.
+    - destruct H1 as [H1|[H1 H1']], H2 as [H2|[H2 H2']].
+      + assert (Hd : 0 < bx - ax) by lra.
+        destruct (Qlt_le_dec ay by_); [left | right]; split; nra.
+      + destruct (Qlt_le_dec ay by_); [left | right].
+        * assert (by_ == py) by nra. lra.
+        * assert (by_ == py) by nra. lra.
+      + destruct (Qlt_le_dec ay by_); [left | right].
+        * assert (ay == py) by nra. lra.
+        * assert (ay == py) by nra. lra.
+      + left. lra.
+    - exact Hc. }
+  destruct (pt_min_cases a b) as [[Em L]|[Em L]]; destruct (pt_max_cases a b) as [[EM L']|[EM L']];
+    rewrite Em in H1; rewrite EM in H2.
+  - apply Hord; assumption.
+  - (* min = a, max = a: a == b *)
+    pose proof (pt_le_antisym _ _ L L') as E.
+    apply Hord; try assumption. eapply pt_le_trans; [exact H2 | apply pt_le_refl; exact E].
+  - pose proof (pt_le_antisym _ _ L' L) as E.
+    apply Hord; try assumption. eapply pt_le_trans; [apply pt_le_refl; exact E | exact H1].
+  - assert (Hc' : cross b a p == 0).
+    { unfold cross in *. lra. }
+    assert (Hs : on_seg (b, a) p = true) by (apply Hord; assumption).
+    apply on_seg_iff in Hs. apply on_seg_iff. destruct Hs as [t [Ht [Hx Hy]]].
+    exists (1 - t). unfold seg_param. destruct Ht as [Ht0 Ht1]. split; [split; lra|]. split; [rewrite Hx | rewrite Hy]; ring.
+Qed.
+
+(* Cramer: if a and b are on the line through c,d (c<>d) then c (and d) are on the line a b *)
+Lemma collinear_swap a b c d :
+  ~ pt_eq c d -> cross c d a == 0 -> cross c d b == 0 -> cross a b c == 0 /\ cross a b d == 0.
+Proof.
+  destruct a as [ax ay], b as [bx by_], c as [cx cy], d as [dx dy].
+  unfold pt_eq, cross; simpl. intros Hne H1 H2.
+  assert (K1 : ((bx - ax) * (cy - ay) - (by_ - ay) * (cx - ax)) * (dx - cx) == 0).
+  { transitivity (((dx - cx) * (by_ - cy) - (dy - cy) * (bx - cx)) * (ax - cx)
+                  - ((dx - cx) * (ay - cy) - (dy - cy) * (ax - cx)) * (bx - cx)); [ring|].
+    rewrite H1, H2. ring. }
+  assert (K2 : ((bx - ax) * (cy - ay) - (by_ - ay) * (cx - ax)) * (dy - cy) == 0).
+  { transitivity (((dx - cx) * (by_ - cy) - (dy - cy) * (bx - cx)) * (ay - cy)
+                  - ((dx - cx) * (ay - cy) - (dy - cy) * (ax - cx)) * (by_ - cy)); [ring|].
+    rewrite H1, H2. ring. }
+  assert (K : (bx - ax) * (cy - ay) - (by_ - ay) * (cx - ax) == 0).
+  { apply Qmult_integral in K1. apply Qmult_integral in K2.
+    destruct K1 as [K1|K1]; [exact K1|]. destruct K2 as [K2|K2]; [exact K2|].
+    exfalso. apply Hne. split; lra. }
+  split; [exact K|].
+  (* cross a b d = cross a b c + (b-a) x (d-c), and (b-a) x (d-c) = cross c d b - cross c d a *)
+  transitivity (((bx - ax) * (cy - ay) - (by_ - ay) * (cx - ax))
+                + (((dx - cx) * (ay - cy) - (dy - cy) * (ax - cx)) - ((dx - cx) * (by_ - cy) - (dy - cy) * (bx - cx)))); [ring|].
+  rewrite K, H1, H2. ring.
+Qed.
+
+
+Lemma on_seg_left a b : on_seg (a, b) a = true.
+Proof. apply on_seg_iff. exists 0. unfold seg_param. split; [lra|]. split; ring. Qed.
+Lemma on_seg_right a b : on_seg (a, b) b = true.
+Proof. apply on_seg_iff. exists 1. unfold seg_param. split; [lra|]. split; ring. Qed.
+Lemma on_seg_sym a b p : on_seg (b, a) p = on_seg (a, b) p.
+Proof.
+  apply eq_true_iff_eq. rewrite !on_seg_iff. unfold seg_param.
+  split; intros [t [[H0 H1] [Hx Hy]]]; exists (1 - t); (split; [lra|]); split;
+    first [rewrite Hx | rewrite Hy]; ring.
+Qed.
+Lemma Qeq_bool_false_iff a b : Qeq_bool a b = false <-> ~ a == b.
+Proof. rewrite <- Qeq_bool_iff. destruct (Qeq_bool a b); split; congruence. Qed.
+
+Lemma lerp_param a b t : 0 <= t <= 1 -> seg_param a b (lerp a b t) t.
+Proof. intros H. unfold seg_param, lerp; cbn [fst snd]. split; [exact H|]. split; apply Qred_correct. Qed.
+
+Lemma seg_seg_sound s t p :
+  In p (ssr_points (seg_seg s t)) -> on_seg s p = true /\ on_seg t p = true.
+Proof.
+  destruct s as [a b], t as [c d]. unfold seg_seg.
+  destruct (pt_eqb a b) eqn:Eab.
+  { destruct (on_seg (c, d) a) eqn:E; simpl; [|tauto]. intros [<-|[]]. split; [apply on_seg_left | exact E]. }
+  destruct (pt_eqb c d) eqn:Ecd.
+  { destruct (on_seg (a, b) c) eqn:E; simpl; [|tauto]. intros [<-|[]]. split; [exact E | apply on_seg_left]. }
+  cbv zeta.
+  apply pt_eqb_false_iff in Eab. apply pt_eqb_false_iff in Ecd.
+  destruct (Qeq_bool (cross c d a - cross c d b) 0) eqn:Eden.
+  - (* parallel *)
+    apply Qeq_bool_iff in Eden.
+    destruct (Qeq_bool (cross c d a) 0) eqn:E3; [|simpl; tauto].
+    apply Qeq_bool_iff in E3.
+    assert (E4 : cross c d b == 0) by lra.
+    destruct (collinear_swap a b c d Ecd E3 E4) as [C1 C2].
+    assert (Ca : cross a b a == 0) by (unfold cross; ring).
+    assert (Cb : cross a b b == 0) by (unfold cross; ring).
+    assert (Cc : cross c d c == 0) by (unfold cross; ring).
+    assert (Cd : cross c d d == 0) by (unfold cross; ring).
+    set (lo := pt_max (pt_min a b) (pt_min c d)).
+    set (hi := pt_min (pt_max a b) (pt_max c d)).
+    assert (Hlo : (cross a b lo == 0 /\ cross c d lo == 0)).
+    { unfold lo. destruct (pt_max_cases (pt_min a b) (pt_min c d)) as [[-> _]|[-> _]].
+      - destruct (pt_min_cases c d) as [[-> _]|[-> _]]; auto.
+      - destruct (pt_min_cases a b) as [[-> _]|[-> _]]; auto. }
+    assert (Hhi : (cross a b hi == 0 /\ cross c d hi == 0)).
+    { unfold hi. destruct (pt_min_cases (pt_max a b) (pt_max c d)) as [[-> _]|[-> _]].
+      - destruct (pt_max_cases a b) as [[-> _]|[-> _]]; auto.
+      - destruct (pt_max_cases c d) as [[-> _]|[-> _]]; auto. }
+    assert (L1 : pt_le (pt_min a b) lo) by apply pt_max_ge_l.
+    assert (L2 : pt_le (pt_min c d) lo) by apply pt_max_ge_r.
+    assert (L3 : pt_le hi (pt_max a b)) by apply pt_min_le_l.
+    assert (L4 : pt_le hi (pt_max c d)) by apply pt_min_le_r.
+    assert (Main : pt_le lo hi -> forall q, q = lo \/ q = hi -> on_seg (a, b) q = true /\ on_seg (c, d) q = true).
+    { intros L q [-> | ->].
+      - split; apply collinear_between_on_seg; try tauto; eapply pt_le_trans; eauto.
+      - split; apply collinear_between_on_seg; try tauto; eapply pt_le_trans; eauto. }
+    destruct (pt_eqb lo hi) eqn:Elh.
+    + apply pt_eqb_iff in Elh. simpl. intros [<-|[]]. apply Main; [apply pt_le_refl; exact Elh | auto].
+    + destruct (pt_leb lo hi) eqn:Ele; [|simpl; tauto].
+      apply pt_leb_iff in Ele. simpl. intros [<-|[<-|[]]]; apply Main; auto.
+  - (* not parallel *)
+    apply Qeq_bool_false_iff in Eden.
+    set (tt := cross c d a / (cross c d a - cross c d b)).
+    set (uu := - cross a b c / (cross c d a - cross c d b)).
+    destruct (Qle_bool 0 tt && Qle_bool tt 1 && Qle_bool 0 uu && Qle_bool uu 1) eqn:Econd; [|simpl; tauto].
+    rewrite !andb_true_iff, !Qle_bool_iff in Econd. destruct Econd as [[[T0 T1] U0] U1].
+    simpl. intros [<-|[]]. split.
+    + apply on_seg_iff. exists tt. apply lerp_param. split; assumption.
+    + apply on_seg_iff. exists uu. unfold seg_param. split; [split; assumption|].
+      unfold lerp; cbn [fst snd]. rewrite !Qred_correct. unfold tt, uu.
+      destruct a as [ax ay], b as [bx by_], c as [cx cy], d as [dx dy]. unfold cross in *; simpl in *.
+      split; field; intros H; apply Eden; rewrite <- H; ring.
+Qed.
+
+
+Lemma on_seg_degenerate a b p : pt_eq a b -> on_seg (a, b) p = true -> pt_eq p a.
+Proof.
+  intros [E1 E2] H. apply on_seg_iff in H. destruct H as [t [_ [Hx Hy]]].
+  split; [rewrite Hx | rewrite Hy]; [rewrite E1 | rewrite E2]; ring.
+Qed.
+
+(* the value of cross c d along the segment a b is the affine interpolation of the end values *)
+Lemma cross_along c d a b p t :
+  fst p == fst a + t * (fst b - fst a) -> snd p == snd a + t * (snd b - snd a) ->
+  cross c d p == (1 - t) * cross c d a + t * cross c d b.
+Proof. intros Hx Hy. unfold cross. rewrite Hx, Hy. ring. Qed.
+
+Lemma Qdiv_mult_eq n d t : ~ d == 0 -> t * d == n -> n / d == t.
+Proof. intros Hd H. rewrite <- H. field. exact Hd. Qed.
+
+Lemma seg_seg_complete s t p :
+  on_seg s p = true -> on_seg t p = true -> seg_seg s t <> SSEmpty.
+Proof.
+  destruct s as [a b], t as [c d]. intros Hs Ht. unfold seg_seg.
+  destruct (pt_eqb a b) eqn:Eab.
+  { apply pt_eqb_iff in Eab. pose proof (on_seg_degenerate a b p Eab Hs) as Ep.
+    rewrite <- (on_seg_proper c d p c d a) by (try reflexivity; exact Ep). rewrite Ht. discriminate. }
+  destruct (pt_eqb c d) eqn:Ecd.
+  { apply pt_eqb_iff in Ecd. pose proof (on_seg_degenerate c d p Ecd Ht) as Ep.
+    rewrite <- (on_seg_proper a b p a b c) by (try reflexivity; exact Ep). rewrite Hs. discriminate. }
+  cbv zeta.
+  apply pt_eqb_false_iff in Eab. apply pt_eqb_false_iff in Ecd.
+  pose proof Hs as Hs'. pose proof Ht as Ht'.
+  apply on_seg_iff in Hs'. destruct Hs' as [t' [[T0 T1] [Hx Hy]]].
+  apply on_seg_iff in Ht'. destruct Ht' as [u' [[U0 U1] [Hx' Hy']]].
+  assert (Cp : cross c d p == 0).
+  { rewrite (cross_along c d c d p u' Hx' Hy'). unfold cross. ring. }
+  assert (Cp' : cross a b p == 0).
+  { rewrite (cross_along a b a b p t' Hx Hy). unfold cross. ring. }
+  pose proof (cross_along c d a b p t' Hx Hy) as A1.
+  pose proof (cross_along a b c d p u' Hx' Hy') as A2.
+  destruct (Qeq_bool (cross c d a - cross c d b) 0) eqn:Eden.
+  - apply Qeq_bool_iff in Eden.
+    assert (E3 : cross c d a == 0) by nra.
+    apply Qeq_bool_iff in E3. rewrite E3.
+    set (lo := pt_max (pt_min a b) (pt_min c d)).
+    set (hi := pt_min (pt_max a b) (pt_max c d)).
+    destruct (on_seg_lex a b p Hs) as [L1 L2]. destruct (on_seg_lex c d p Ht) as [L3 L4].
+    assert (L : pt_le lo hi).
+    { apply pt_le_trans with p; [apply pt_max_lub | apply pt_min_glb]; assumption. }
+    destruct (pt_eqb lo hi); [discriminate|].
+    apply pt_leb_iff in L. rewrite L. discriminate.
+  - apply Qeq_bool_false_iff in Eden.
+    set (den := cross c d a - cross c d b) in *.
+    assert (Et : cross c d a / den == t').
+    { apply Qdiv_mult_eq; [exact Eden|]. unfold den. nra. }
+    assert (Eu : - cross a b c / den == u').
+    { apply Qdiv_mult_eq; [exact Eden|].
+      (* den = cross a b d - cross a b c *)
+      assert (Hden : den == cross a b d - cross a b c) by (unfold den, cross; ring).
+      rewrite Hden. nra. }
+    rewrite Et, Eu.
+    apply Qle_bool_iff in T0, T1, U0, U1. rewrite T0, T1, U0, U1. simpl. discriminate.
+Qed.
+
+Lemma seg_seg_nonempty_iff s t :
+  seg_seg s t <> SSEmpty <-> exists p, on_seg s p = true /\ on_seg t p = true.
+Proof.
+  split.
+  - intros H. destruct (seg_seg s t) eqn:E; [congruence| |].
+    + exists p. apply seg_seg_sound. rewrite E. simpl. auto.
+    + exists p. apply seg_seg_sound. rewrite E. simpl. auto.
+  - intros [p [H1 H2]]. eapply seg_seg_complete; eauto.
+Qed.
+
+Lemma on_seg_translate a b p v :
+  on_seg (pt_add a v, pt_add b v) (pt_add p v) = on_seg (a, b) p.
+Proof.
+  apply eq_true_iff_eq. rewrite !on_seg_iff. unfold seg_param, pt_add; cbn [fst snd].
+  split; intros [t [Ht [Hx Hy]]]; exists t; (split; [exact Ht|]); split; lra.
+Qed.
